@@ -24,6 +24,8 @@ PATCHES = {
     "var-to-const": "@@\nvar v identifier\nvar x expression\n@@\n-var v = wrap(x)\n+const v = 1\n",
     "plus-comments": "@@\nvar x expression\n@@\n-foo(x)\n+bar(x) // plus-eol\n+/* plus-block */\n+baz()\n",
     "two-stmts-away": "@@\nvar x expression\n@@\n-foo(x)\n ...\n-return nil\n+return wrapped(x)\n",
+    "const-block-to-var": "@@\nvar name identifier\nvar value expression\n@@\n-const (\n+var (\n   name = value\n )\n",
+    "method-to-func": "@@\n@@\n-func (r R) target() error {\n+func target() error {\n   ...\n }\n",
     "field": "@@\n@@\n type T struct {\n   ...\n-  Old int\n+  New int\n   ...\n }\n",
     "two-changes": "@@\nvar x expression\n@@\n-foo(x)\n+bar(x)\n\n@@\nvar y expression\n@@\n-bar(y)\n+baz(y, 1)\n",
     "three-changes": "@@\nvar x expression\n@@\n-keep(x)\n+kept(x)\n\n@@\n@@\n-func target() error {\n+func renamed() error {\n   ...\n }\n\n@@\nvar y expression\n@@\n-foo(y)\n+bar(y)\n",
@@ -74,9 +76,10 @@ def decorate_body(rng, body, i):
 
 
 def gen_file(rng, pn=""):
-    n = rng.randint(3, 8)
-    need = NEED.get(pn)
-    forced = rng.randrange(n)
+    pns = pn.split("+") if pn.startswith("combo:") else [pn]
+    pns[0] = pns[0].replace("combo:", "")
+    n = rng.randint(max(3, len(pns)), 8)
+    where = dict(zip(rng.sample(range(n), len(pns)), pns))      # declaration index -> patch kind it must contain a site for
     parts = []
     hdr = ""
     if rng.random() < 0.5:
@@ -87,7 +90,7 @@ def gen_file(rng, pn=""):
         hdr += "// Package p is documented.\n"
     hdr += "package p" + (" // pkg-trailing" if rng.random() < 0.3 else "") + "\n"
     parts.append(hdr)
-    if rng.random() < 0.6 or pn == "import-replace":
+    if rng.random() < 0.6 or "import-replace" in pns:
         parts.append("import (\n\t\"fmt\" // fmt-trailing\n\t// about os\n\t\"os\"\n)\n")
     for i in range(n):
         d = ""
@@ -98,17 +101,23 @@ def gen_file(rng, pn=""):
         if rng.random() < 0.15:
             d += "//go:generate tool %d\n" % i
         kind = rng.random()
-        site = rng.random() < 0.45 or i == forced
-        if i == forced:
-            kind = 0.75 if pn in ("type-kind", "field") else 0.9 if pn == "var-to-const" else 0.1
+        pk = where.get(i)
+        need = NEED.get(pk)
+        site = rng.random() < 0.45 or pk is not None
+        if pk is not None:
+            kind = 0.75 if pk in ("type-kind", "field") else 0.9 if pk == "var-to-const" else 0.99 if pk == "const-block-to-var" else 0.1
         if kind < 0.7:
-            name = "target" if (site and (rng.random() < 0.3 or (i == forced and pn.startswith(("func-", "three-"))))) else "f%d" % i
+            name = "target" if (site and (rng.random() < 0.3 or (pk or "").startswith(("func-", "three-", "method-")))) else "f%d" % i
+            if name == "target" and pk == "method-to-func":
+                name = "(r R) target"
             body = "\n".join((body_site(rng, i * 10 + k, need) if site and k == 0 else body_plain(rng, i * 10 + k)) for k in range(rng.randint(1, 3)))
             d += "func %s() error {\n%s\n\treturn nil\n}" % (name, decorate_body(rng, body, i))
         elif kind < 0.85:
             d += "type T%d struct {\n\tA int // field-eol %d\n\t// field-doc %d\n\t%s int\n\tC string\n}" % (i, i, i, "Old" if site else "B")
             if site:
                 d = d.replace("type T%d" % i, "type T")
+        elif kind >= 0.97:
+            d += "const (\n\tK%d = %d // const-eol %d\n)" % (i, i, i)
         else:
             d += "var v%d = %s // var-eol %d" % (i, "wrap(foo(%d))" % i if site else "other(%d)" % i, i)
         if rng.random() < 0.25 and "// var-eol" not in d:
@@ -172,9 +181,18 @@ def main():
     names = list(PATCHES)
     n = 8000 if thorough else 1200
     cases = []
+    singles = [x for x in names if not x.endswith("-changes")]
     for k in range(n):
-        pn = names[k % len(names)]
-        cases.append((pn, PATCHES[pn], gen_file(rng, pn)))
+        if k % 3 == 2:
+            # several changes in one run: state (snapshot, comment map, positions) is carried from one to the next
+            ks = rng.sample(singles, rng.choice([2, 2, 3]))
+            if rng.random() < 0.5:      # a declaration-level change last
+                ks = [x for x in ks if x not in ("var-to-const", "type-kind", "method-to-func", "const-block-to-var")][:2] + [rng.choice(["var-to-const", "type-kind", "method-to-func", "const-block-to-var", "const-block-to-var"])]
+            pn = "combo:" + "+".join(ks)
+            cases.append((pn, "\n".join(PATCHES[x] for x in ks), gen_file(rng, pn)))
+        else:
+            pn = names[k % len(names)]
+            cases.append((pn, PATCHES[pn], gen_file(rng, pn)))
     # golden cases with comments in the inputs
     for c in corpus.golden():
         for fn, data in sorted(c["inputs"].items()):
@@ -200,7 +218,7 @@ def main():
             ck.count((p, f), nontrivial=False); ck.tally("outcome", "patch rejected" if r["load_err"] else "file does not parse"); continue
         steps = [s for s in (r["steps"] or []) if s["matched"] and not s["replace_err"]]
         ck.count((p, f), nontrivial=bool(steps) and bool(r.get("out_owned")))
-        ck.tally("patch_kind", pn.split(":")[0])
+        ck.tally("patch_kind", pn if not pn.startswith(("combo:", "golden:")) else pn.split(":")[0])
         if not steps or not r.get("out_owned"):
             ck.tally("outcome", "no change applied" if not steps else "output not produced: " + (r.get("out_err") or "")[:40])
             continue
